@@ -464,7 +464,7 @@ CHECKS["C18"] = {
     "nontrivial_floor": 10,
     "units": [
         {"name": "spin-signals", "run": "^TestC18Signals$", "kind": "plain"},
-        {"name": "standard-transport", "run": "^TestC18Standard$", "kind": "rapid", "checks": {"quick": 64, "thorough": 640}, "shards": {"quick": 16, "thorough": 16}, "shrinktime": "30s"},
+        {"name": "standard-transport", "run": "^TestC18Standard$", "kind": "rapid", "checks": {"quick": 192, "thorough": 960}, "shards": {"quick": 16, "thorough": 16}, "shrinktime": "30s"},
         {"name": "netpoll-transport", "run": "^TestC18Netpoll$", "kind": "rapid", "checks": {"quick": 32, "thorough": 480}, "shards": {"quick": 16, "thorough": 16}, "shrinktime": "30s"},
         {"name": "concurrent-shutdown", "run": "^TestC18ConcurrentShutdown$", "kind": "rapid", "checks": {"quick": 160, "thorough": 1600}, "shards": {"quick": 4, "thorough": 16}, "shrinktime": "20s"},
     ],
